@@ -38,11 +38,14 @@ package diskfs
 //@ func (*Filespace).Filespace [C03 C02]
 //@   at_call os.*,ioutil.*,disk.*,NewFilespace requires Confined(fs.path, $arg)
 
-//@ func (*Filespace).Reader [C03 C02]
+//@ func (*Filespace).Reader [C03 C02 C04]
 //@   at_call os.*,ioutil.*,disk.*,NewFilespace requires Confined(fs.path, $arg)
 
-//@ func (*Filespace).Writer [C03 C02]
-//@   at_call os.*,ioutil.*,disk.*,NewFilespace requires Confined(fs.path, $arg)
+//@ func (*Filespace).Writer [C03 C02 C04]
+//@   at_call [C03 C02] os.*,ioutil.*,disk.*,NewFilespace requires Confined(fs.path, $arg)
+// C04 / C02: a writer replaces the old content: the file is opened for writing, created when
+// missing and truncated (O_WRONLY or O_RDWR, O_CREATE = 64, O_TRUNC = 512)
+//@   at_call [C04 C02] os.OpenFile requires ($1 == 577 || $1 == 578)
 
 //@ func (*Filespace).Remove [C03 C02]
 //@   at_call os.*,ioutil.*,disk.*,NewFilespace requires Confined(fs.path, $arg)
